@@ -11,7 +11,9 @@ import (
 	"sort"
 	"strings"
 
+	"github.com/bmatcuk/doublestar/v4"
 	"github.com/rhysd/actionlint"
+	"gopkg.in/yaml.v3"
 )
 
 func init() { props["C15"] = runC15 }
@@ -513,6 +515,17 @@ func runC15(c *ctx, r *Report) error {
 	writeProject(root, "", nil)
 	r.sample(map[string]interface{}{"op": "main", "cwd": "/home/repo/sub/dir", "spelling": "relative", "config_glob": ".github/workflows/*.yml", "reference_diagnostics": len(ref)})
 	r.sample(map[string]string{"op": "relpath", "cwd": "/home/u/repo/sub", "root": "/home/u/repo", "spelled": "../.github/workflows/a.yml", "impl": actionlint.VerifPathFromProjectRoot("/home/u/repo/sub", "../.github/workflows/a.yml", "/home/u/repo")})
+	// (6) the concrete ignore decision (AL.Ignore.lintTailOpt, op `ignoretail`; AL.C15D): scratch repositories with a generated
+	// actionlint.yaml (0–3 `paths:` entries, globs that match / do not match the file, 0–2 `ignore:` patterns each; sometimes no
+	// configuration at all) and 0–2 -ignore patterns; the file's raw diagnostics (no configuration, no -ignore) and the ones the
+	// real Linter keeps with them; regexp and doublestar answer for the two match tables
+	nIgn := 150
+	if !c.quick {
+		nIgn = 5000
+	}
+	if err := c15IgnoreTie(c, r, &b, rng, nIgn); err != nil {
+		return err
+	}
 	if _, err = b.flush(c, r); err != nil {
 		return err
 	}
@@ -528,3 +541,197 @@ func runC15(c *ctx, r *Report) error {
 	r.Rule += fmt.Sprintf("; %d generated actionlint.yaml files parsed by the real ParseConfig and by the Lean model AL.ConfigDecode (op configmeta; regexp.Compile and doublestar.ValidatePattern answer for the model)", nC)
 	return nil
 }
+
+
+const c15IgnoreWorkflow = `on: push
+jobs:
+  a:
+    runs-on: nosuch-label
+    steps:
+      - run: echo ${{ github.nosuch }}
+      - run: echo ${{ matrix.x }}
+      - uses: actions/checkout@v4
+        with:
+          nosuchinput: 1
+  b:
+    needs: [zz]
+    runs-on: ubuntu-latest
+    steps:
+      - run: echo ${{ github.nosuch }}
+        id: 1bad
+`
+
+func c15IgnoreTie(c *ctx, r *Report, b *batch, rng *rand.Rand, n int) error {
+	root, err := os.MkdirTemp("", "verif-c15-ignore-")
+	if err != nil {
+		return err
+	}
+	defer os.RemoveAll(root)
+	root, _ = filepath.EvalSymlinks(root)
+	rel := ".github/workflows/a.yml"
+	file := filepath.Join(root, filepath.FromSlash(rel))
+	lintWith := func(cfg string, cli []string) ([]*actionlint.Error, error) {
+		if err := writeProject(root, cfg, map[string]string{"a.yml": c15IgnoreWorkflow}); err != nil {
+			return nil, err
+		}
+		l, err := actionlint.NewLinter(nopWriter{}, &actionlint.LinterOptions{Shellcheck: "", Pyflakes: "", IgnorePatterns: cli})
+		if err != nil {
+			return nil, err
+		}
+		return l.LintFile(file, nil)
+	}
+	raw, err := lintWith("", nil)
+	if err != nil {
+		return err
+	}
+	if len(raw) < 5 {
+		r.finding("ignore-workload-quiet", fmt.Sprintf("the workflow of the ignore tie yields only %d diagnostics", len(raw)), Case{Op: "ignoretail"})
+	}
+	globs := []string{".github/workflows/*.yml", "**/a.yml", ".github/**", "other/**", "*.yml", ".github/workflows/a.yml", "**", ".github/workflows/b*.yml", "{a,.github}/**/*.yml"}
+	pats := []string{"undefined", "not defined", ".*", "^label", "job", "x{2}", "\\bid\\b", "input \"nosuchinput\"", "NOSUCH", "(?i)NOSUCH", "$^", "", "property|label"}
+	lst := func(xs []string) string {
+		if len(xs) == 0 {
+			return "E"
+		}
+		return "(" + strings.Join(xs, ",") + ")"
+	}
+	for i := 0; i < n; i++ {
+		var cli []string
+		for k, m := 0, rng.Intn(3); k < m; k++ {
+			cli = append(cli, pats[rng.Intn(len(pats))])
+		}
+		cfg := ""
+		type entry struct {
+			glob string
+			pats []string
+		}
+		var entries []entry
+		if rng.Intn(5) > 0 {
+			var sb strings.Builder
+			sb.WriteString("paths:\n")
+			used := map[string]bool{}
+			for k, m := 0, rng.Intn(4); k < m; k++ {
+				g := globs[rng.Intn(len(globs))]
+				if used[g] {
+					continue
+				}
+				used[g] = true
+				e := entry{glob: g}
+				fmt.Fprintf(&sb, "  %q:\n    ignore:", g)
+				m2 := rng.Intn(3)
+				if m2 == 0 {
+					sb.WriteString(" []\n")
+				} else {
+					sb.WriteString("\n")
+				}
+				for j := 0; j < m2; j++ {
+					p := pats[rng.Intn(len(pats))]
+					e.pats = append(e.pats, p)
+					fmt.Fprintf(&sb, "      - %q\n", p)
+				}
+				entries = append(entries, e)
+			}
+			if len(entries) == 0 {
+				sb.Reset()
+				sb.WriteString("self-hosted-runner:\n  labels: []\n")
+			}
+			cfg = sb.String()
+		}
+		kept, err := lintWith(cfg, cli)
+		r.Evaluations++
+		cs := Case{Op: "ignoretail", Input: map[string]string{"config": cfg, "ignore": strings.Join(cli, " | ")}}
+		if err != nil {
+			cs.Note = err.Error()
+			r.finding("ignore-run-error", "the linter fails with a well-formed configuration and valid -ignore patterns: "+err.Error(), cs)
+			continue
+		}
+		var implParts []string
+		for _, e := range kept {
+			implParts = append(implParts, fmt.Sprintf("%d:%d:%s", e.Line, e.Column, hx(e.Message)))
+		}
+		impl := "none"
+		if len(implParts) > 0 {
+			impl = strings.Join(implParts, ",")
+		}
+		// the match tables, by the real engines
+		allPats := map[string]bool{}
+		for _, p := range cli {
+			allPats[p] = true
+		}
+		var glt []string
+		for _, e := range entries {
+			for _, p := range e.pats {
+				allPats[p] = true
+			}
+			if ok := doublestarMatch(e.glob, rel); ok {
+				glt = append(glt, hx(e.glob))
+			}
+		}
+		var ret []string
+		for p := range allPats {
+			re, err := regexp.Compile(p)
+			if err != nil {
+				continue
+			}
+			for _, e := range raw {
+				if re.MatchString(e.Message) {
+					ret = append(ret, "("+hx(p)+","+hx(e.Message)+")")
+				}
+			}
+		}
+		sort.Strings(ret)
+		sort.Strings(glt)
+		var rawParts []string
+		for _, e := range raw {
+			rawParts = append(rawParts, fmt.Sprintf("(%d,%d,%s)", e.Line, e.Column, hx(e.Message)))
+		}
+		node := "N"
+		if cfg != "" {
+			var rootNode yaml.Node
+			if err := yaml.Unmarshal([]byte(cfg), &rootNode); err != nil {
+				continue
+			}
+			node = nodeSexp(&rootNode, map[string]bool{})
+		}
+		var hcli []string
+		for _, p := range cli {
+			hcli = append(hcli, hx(p))
+		}
+		b.add(fmt.Sprintf("ignoretail %s E E %s %s %s %s %s %s", lst(hcli), node, hx(rel), hx(rel), lst(rawParts), lst(ret), lst(glt)), impl, cs)
+		r.nontrivial("ignore:" + cfg + "|" + strings.Join(cli, "|"))
+		r.hist(fmt.Sprintf("ignoretail:kept=%d/%d,entries=%d,cli=%d", len(kept), len(raw), len(entries), len(cli)))
+		// the property itself on the implementation: kept = raw minus the diagnostics some applicable pattern matches, in order
+		var want []string
+		for _, e := range raw {
+			drop := false
+			for _, p := range cli {
+				if regexp.MustCompile(p).MatchString(e.Message) {
+					drop = true
+				}
+			}
+			for _, en := range entries {
+				if doublestarMatch(en.glob, rel) {
+					for _, p := range en.pats {
+						if regexp.MustCompile(p).MatchString(e.Message) {
+							drop = true
+						}
+					}
+				}
+			}
+			if !drop {
+				want = append(want, fmt.Sprintf("%d:%d:%s", e.Line, e.Column, hx(e.Message)))
+			}
+		}
+		w := "none"
+		if len(want) > 0 {
+			w = strings.Join(want, ",")
+		}
+		if w != impl {
+			r.finding("filter-not-exact", "the kept diagnostics are not the raw ones minus those an applicable pattern matches", cs)
+		}
+	}
+	return nil
+}
+
+// doublestarMatch: `doublestar.MatchUnvalidated`, as Config.PathConfigs calls it
+func doublestarMatch(glob, path string) bool { return doublestar.MatchUnvalidated(glob, path) }
